@@ -21,7 +21,7 @@ TREE = "regex_radix_tree::tree::RegexTreeMap"
 LAZY = "regex::LazyRegex"
 
 
-def r08_1(ctx):
+def r08_1(ctx, rid="R08.1"):
     F = ctx.facts
 
     def body(r):
@@ -105,7 +105,7 @@ def r08_1(ctx):
                     rows.setdefault(var[0], set()).update(calls)
             ok = (rows.get("Node") == {NODE + "::" + name} or (name == "cache" and NODE + "::" + name in rows.get("Node", ()))) and (rows.get("Leaf") == {LEAF + "::" + name} or (name == "cache" and rows.get("Leaf") <= {LEAF + "::cache"})) and not rows.get("Empty")
             r.ob("traversal:Item::%s:dispatch" % name, ok, f.site, "Item::%s forwards Node->Node::%s, Leaf->Leaf::%s, Empty->nothing: %s" % (name, name, name, {k: sorted(v) for k, v in rows.items()}))
-    ctx.run_rule("R08.1", "traversal completeness of find / get / len", body, floor=20)
+    ctx.run_rule(rid, "traversal completeness of find / get / len", body, floor=20)
 
 
 def _ty(f, place):
@@ -114,7 +114,7 @@ def _ty(f, place):
     return s if not projs else "proj:" + s
 
 
-def r08_2(ctx):
+def r08_2(ctx, rid="R08.2"):
     F = ctx.facts
 
     def body(r):
@@ -173,10 +173,10 @@ def r08_2(ctx):
                 r.ob("conservation:%s::%s" % (adt.rsplit("::", 1)[1], name), not bad, f.site,
                      "no stored value or subtree can be dropped except when proven empty / replaced by id / removed" if not bad else "; ".join(sorted(bad)[:3]))
         r.ob("conservation:drops-classified", n_drops >= 15, "", "%d drops of tree content classified on all paths" % n_drops)
-    ctx.run_rule("R08.2", "content conservation in insert / remove / retain (def-to-drop must-use)", body, floor=13)
+    ctx.run_rule(rid, "content conservation in insert / remove / retain (def-to-drop must-use)", body, floor=13)
 
 
-def r08_3(ctx):
+def r08_3(ctx, rid="R08.3"):
     F = ctx.facts
 
     def join_parts(e):
@@ -205,7 +205,7 @@ def r08_3(ctx):
         r.ob("anchoring:node:empty-prefix", rows.get(1, {}).get("regex") == ("const", ".*"), g.site, "empty prefix -> `.*`")
         for k in (0, 1):
             r.ob("anchoring:node:original:%d" % k, rows.get(k, {}).get("original") == ("param", 1), g.site, "node original = prefix")
-    ctx.run_rule("R08.3", "anchoring constants of leaf and node regexes", body, floor=7)
+    ctx.run_rule(rid, "anchoring constants of leaf and node regexes", body, floor=7)
 
 
 def r08_4(ctx):
@@ -290,7 +290,90 @@ def r08_6(ctx):
     ctx.run_rule("R08.6", "(pattern, id) replacement", body, floor=4)
 
 
+def r08_7(ctx):
+    """The stated mechanism of prefix splitting, as a per-character decision table of
+    common_prefix_char_size: group depth changes only on unescaped parentheses, a backslash escapes
+    exactly the next character, and the cut position advances only at depth 0 outside an escape.
+    (Regex-syntax soundness of the split itself - e.g. `(` inside a character class - is NOT decided.)"""
+    from itertools import product
+    F = ctx.facts
+
+    def body(r):
+        f = F.fn("regex_radix_tree::prefix::common_prefix_char_size")
+        r.analysed(f)
+        be = f.back_edges()
+        if len(be) != 1:
+            r.ob("prefix-scan:loop", False, f.site, "%d loops" % len(be))
+            return
+        h = be[0][1]
+        names = {n: l for l, (tix, n, u, m) in enumerate(f.locals) if n}
+        need = ("was_escape", "group_level", "prefix_length", "left_char")
+        if any(n not in names for n in need):
+            r.ob("prefix-scan:state", False, f.site, "state variables %s not found" % [n for n in need if n not in names])
+            return
+        we, gl, pl = names["was_escape"], names["group_level"], names["prefix_length"]
+        s = Sym(f, copies=True)
+        bad = set()
+        rows = 0
+        for p in s.paths(start=h, stops={h}):
+            if p.end[0] != "stop":
+                continue
+            assign = {}
+            z = None
+            for a, v in p.conds:
+                if a[0] == "bin" and a[1] == "Eq" and a[3][0] == "const" and isinstance(a[3][1], str) and len(a[3][1]) == 1 and a[2][0] != "const":
+                    c = a[3][1]
+                    if c in "()\\":
+                        assign[{"(": "A", ")": "B", "\\": "S"}[c]] = bool(v)
+                elif a == ("local", we):
+                    assign["E"] = bool(v)
+                elif a[0] == "bin" and a[1] == "Eq" and a[3] == ("const", 0) and mentions(a[2], lambda x: x == ("local", gl)):
+                    z = bool(v)
+            lvl = 0
+            esc_new = None
+            upd = False
+            for e in p.events:
+                if e[0] == "set" and e[1] == gl:
+                    lvl = 1 if mentions(e[3], lambda x: x[0] == "bin" and x[1].startswith("Add")) else -1 if mentions(e[3], lambda x: x[0] == "bin" and x[1].startswith("Sub")) else 99
+                if e[0] == "set" and e[1] == we:
+                    esc_new = e[3][1] if e[3][0] == "const" else "?"
+                if e[0] == "set" and e[1] == pl:
+                    upd = True
+            free = [k for k in ("A", "B", "S", "E") if k not in assign]
+            for vals in product([False, True], repeat=len(free)):
+                full = dict(assign)
+                full.update(zip(free, vals))
+                if sum(1 for k in ("A", "B", "S") if full[k]) > 1:
+                    continue  # one character
+                rows += 1
+                lvl_ref = 1 if (full["A"] and not full["E"]) else -1 if (full["B"] and not full["E"]) else 0
+                esc_ref = full["S"] and not full["E"]
+                esc_got = full["E"] if esc_new is None else esc_new
+                if lvl != lvl_ref:
+                    bad.add("char=%s escaped=%s: depth change %+d (reference %+d)" % ("(" if full["A"] else ")" if full["B"] else "\\" if full["S"] else "other", full["E"], lvl, lvl_ref))
+                if esc_got != esc_ref:
+                    bad.add("char=%s escaped=%s: next character escaped=%s (reference %s)" % ("\\" if full["S"] else "other", full["E"], esc_got, esc_ref))
+                if z is not None:
+                    upd_ref = z and not esc_ref
+                    if upd != upd_ref and esc_got == esc_ref:
+                        bad.add("depth==0:%s next-escaped=%s: cut position %s (reference %s)" % (z, esc_ref, "advanced" if upd else "kept", "advanced" if upd_ref else "kept"))
+                elif upd:
+                    bad.add("cut position advanced without testing the group depth")
+        r.ob("prefix-scan:table", not bad and rows >= 16, f.site,
+             "depth +1/-1 only on unescaped ( / ); a backslash escapes exactly the next character; the cut advances only at depth 0 outside an escape (%d rows)" % rows if not bad else "; ".join(sorted(bad)[:4]))
+        # the two strings are compared character by character and scanning stops at the first difference
+        ok_stop = False
+        for p in s.paths(start=h, stops={h}):
+            if p.end[0] == "ret":
+                for a, v in p.conds:
+                    if a[0] == "bin" and a[1] == "Eq" and a[2][0] != "const" and a[3][0] != "const" and v == 0:
+                        ok_stop = p.end[1] == ("local", pl)
+        r.ob("prefix-scan:stops-at-first-difference", ok_stop, f.site, "returns the last recorded cut position at the first differing character")
+    ctx.run_rule("R08.7", "per-character decision table of the common-prefix scanner", body, floor=2)
+
+
 def run(ctx):
+    r08_7(ctx)
     r08_1(ctx)
     r08_2(ctx)
     r08_3(ctx)
